@@ -141,6 +141,14 @@ theorem C15_kinds (r : Rule) :
       | .hooksWithOwnSetattr | .frozenWithOwnSetattr => Exc.valueError) := by
   cases r <;> rfl
 
+/-- **C15_second_default_counts_sources**: the `@x.default` check of the code (first application fails iff
+    `default=` / `factory=` already set one; every later application fails) is "the field is given a default more
+    than once": `default=`, `factory=` and each application of the decorator count as one source — any number of
+    applications, any combination. -/
+theorem C15_second_default_counts_sources (f : Field) :
+    (f.deco && (f.dflt || f.factory || f.decoMore != 0)) = (f.deco && decide (defaultSources f ≥ 2)) :=
+  (secondDefault_cond f).symm
+
 /-! ### the ordering rule -/
 
 /-- **C15_order_iff_exists_pair**: the `had_default` loop raises iff some defaulted positional attribute at an
@@ -334,7 +342,7 @@ def plain : Case :=
     baseFrozen := false, baseAttrs := [], fields := [] }
 
 def fld (n : String) : Field :=
-  { name := n, bare := false, annotated := false, dflt := false, factory := false, deco := false, init := true,
+  { name := n, bare := false, annotated := false, dflt := false, factory := false, deco := false, decoMore := 0, valDeco := 0, init := true,
     kwOnly := false, cmp := .none, eq := .none, order := .none, hash := .none, onSetattr := .none,
     typeArg := false, validator := false, converter := false }
 
@@ -382,6 +390,13 @@ example : defError { plain with transformer := { Tr.id with first := { AttrEdit.
 example : defError { plain with transformer := { Tr.id with first := { AttrEdit.id with dflt := .setT }, nFirst := 1 }, fields := [fld "a", fld "b"] } = some .valueError := by decide
 example : defError { plain with transformer := { Tr.id with add := .defaultedFirst }, fields := [fld "a"] } = some .valueError := by decide
 example : defError { plain with transformer := { Tr.id with add := .defaultedFirst }, kwOnly := true, fields := [fld "a"] } = none := by decide
+
+/-- the seeded change C15-gm1: every `@x.default` after the first raises, whatever the field was created with;
+    `@x.validator` any number of times is valid -/
+example : defError { plain with fields := [{ (fld "a") with deco := true, decoMore := 1 }] } = some .defaultAlreadySet := by decide
+example : defError { plain with api := .define, fields := [{ (fld "a") with deco := true, decoMore := 2, valDeco := 2 }] } = some .defaultAlreadySet := by decide
+example : defError { plain with fields := [{ (fld "a") with deco := true, valDeco := 2, validator := true }] } = none := by decide
+example : defError { plain with fields := [{ (fld "a") with dflt := true, factory := true, deco := true }] } = some .valueError := by decide
 
 /-- two simultaneous contradictions: the code order decides (ValueError of hooks + own `__setattr__` before the
     TypeError of the non-bool hash), the specification accepts either type -/
